@@ -54,6 +54,8 @@ def op_txt(op):
     p = path_txt(op.get("path", []))
     if n == "NEW":
         return "NEW %s %s" % (enc(op["defaults"]), enc(op["overrides"]))
+    if n == "FRESH":  # a fresh instance of a clone target class: its defaults are the class's table
+        return "NEW %s {}" % enc(op["into"])
     if n == "NEWF":
         return "NEWF " + " ".join(enc(op[s]) for s in ("defaults", "overrides", "system", "user", "project", "runtime"))
     if n == "LOAD":
@@ -165,14 +167,15 @@ STALE_TAG = "{stale handle: obtained before a re-merge}"
 NOFILES = dict(system_prefix="/nonexistent-verif/sys/", user_prefix="/nonexistent-verif/usr/")
 
 
-def make_sub(extra):
-    """a Config subclass whose global defaults are `extra` (cloning `into` it)"""
+def make_sub(extra, table=None):
+    """a Config subclass whose global defaults are `extra` (cloning `into` it); with `table` its global_defaults()
+    hands out that ONE dict object every time (a module / class level constant)"""
     from invoke.config import Config
 
     class Sub(Config):
         @staticmethod
         def global_defaults():
-            return copy.deepcopy(extra)
+            return table if table is not None else copy.deepcopy(extra)
     return Sub
 
 
@@ -305,7 +308,7 @@ class Impl:
         """returns the canonical result text; never raises"""
         self._before = None
         o = op.get("o", 0)
-        if self.handles and o < len(self.objs) and o not in self.stale and op["op"] not in ("NEW", "NEWF"):
+        if self.handles and o < len(self.objs) and o not in self.stale and op["op"] not in ("NEW", "NEWF", "FRESH"):
             try:
                 self._before = plain(self.objs[o])
             except Exception:
@@ -332,6 +335,9 @@ class Impl:
             return ABSENT
         if n == "NEWF":
             return self._newf(op)
+        if n == "FRESH":
+            self.objs.append(self.target_class(op)(lazy=True, **NOFILES))
+            return ABSENT
         c = self.objs[op.get("o", 0)]
         if n == "LOAD":
             if op.get("via_coll"):
@@ -380,10 +386,7 @@ class Impl:
                 k = c.clone()
             else:
                 # the SAME class object for the same "cls" index within a history (clone targets are reused)
-                key = op.get("cls", "anon%d" % len(self.classes))
-                if key not in self.classes:
-                    self.classes[key] = make_sub(op["into"])
-                k = c.clone(into=self.classes[key])
+                k = c.clone(into=self.target_class(op))
             self.objs.append(k)
             return ABSENT
         if n == "HOLD":
@@ -463,6 +466,18 @@ class Impl:
         if n == "ITEMS":
             return "v" + canon({a: deplain(b) for a, b in p.items()})
         raise ValueError("unknown op " + n)
+
+    def target_class(self, op):
+        """the SAME class object for the same "cls" index within a history; a `const` class hands out one shared
+        defaults table, which is caller-supplied data (snapshotted)"""
+        key = op.get("cls", "anon%d" % len(self.classes))
+        if key not in self.classes:
+            table = None
+            if op.get("const"):
+                table = copy.deepcopy(op["into"])
+                self.sources.append(("global_defaults() table of a clone target class", table, copy.deepcopy(table)))
+            self.classes[key] = make_sub(op["into"], table)
+        return self.classes[key]
 
     def _handle_op(self, c, op):
         """An operation THROUGH A HELD HANDLE (a proxy obtained earlier and kept across other operations).
@@ -580,7 +595,7 @@ class Impl:
         if op["op"] == "POP" and "d" in op and r == "v" + canon(op["d"]):
             return  # pop(key, default) of an absent key: nothing happened
         self._count_merge(op)
-        if op["op"] not in ("HOLD", "CLONE", "NEW", "NEWF", "HOP") + READS and not (
+        if op["op"] not in ("HOLD", "CLONE", "NEW", "NEWF", "FRESH", "HOP") + READS and not (
                 op["op"] == "SD" and o in self.stale):
             self.stale.discard(o)
         if o in self.stale or o >= len(self.objs):
@@ -739,6 +754,8 @@ class Ref:
         for s, d in (levels or {}).items():
             self.levels[s] = copy.deepcopy(d or {})
         self.journal = []
+        self.strict_order = False  # compare iteration order / popitem's choice (C06 judge with order=True)
+        self.reborn = set()  # sections in which a deleted key was written again (key order there: see C06 notes)
         self.tree = self.base()
         self.dictwrites = []  # (path of a dict-valued write, target present in the view at write time?, journal length)
 
@@ -772,12 +789,21 @@ class Ref:
                 set_total(lvl, list(p), env_cast(old, environ[var]))
         self.reload("env", lvl)
 
+    def order_dont_care(self):
+        """sections whose key ORDER falls under known finding C06-rewritten-key-order (an order-only deviation there is
+        TAGGED, not ignored): where a deleted key was written again, and at or below a dict-valued write - the view is
+        rebuilt by re-merging the levels and re-applying the modifications, so such a key sits at its LEVEL position"""
+        dw = [tuple(w[0]) for w in self.dictwrites]
+        return lambda p: p in self.reborn or any(p[:len(w)] == w for w in dw)
+
     def clone(self, into=None):
         r = Ref()
         r.levels = copy.deepcopy(self.levels)
         r.journal = copy.deepcopy(self.journal)
         r.tree = copy.deepcopy(self.tree)
         r.dictwrites = copy.deepcopy(self.dictwrites)
+        r.reborn = set(self.reborn)
+        r.strict_order = self.strict_order
         return r
 
     # ---- plain dict operations
@@ -796,6 +822,8 @@ class Ref:
     def _set(self, cur, keys, k, v):
         if isinstance(v, dict):
             self.dictwrites.append((keys + [k], k in cur, len(self.journal)))
+        if any(e[0] == "del" and e[1] == keys + [k] for e in self.journal):
+            self.reborn.add(tuple(keys))
         cur[k] = copy.deepcopy(v)
         self.journal.append(("set", keys + [k], copy.deepcopy(v)))
 
@@ -858,6 +886,8 @@ class Ref:
             kk = op.get("chosen")
             if kk is None or kk not in cur:
                 return "popitem must remove a key that is present (%r of %s)" % (kk, sorted(cur))
+            if self.strict_order and not self.order_dont_care()(tuple(keys)) and kk != list(cur)[-1]:
+                return "popitem must remove the LAST key of the section (%r of %s)" % (kk, list(cur))
             r = "P%s=%s" % (kk, canon(cur[kk]))
             self._del(cur, keys, kk)
             return r
@@ -977,16 +1007,27 @@ def new_ref(op):
     return Ref(lv)
 
 
-def judge(ops, results, views, clone_ref=None):
+def judge(ops, results, views, clone_ref=None, order=False):
     """ORACLE.  Drives one plain nested dict per object with the same operations and compares every
     result and every view.  Returns None (property holds on this history / don't-care reached) or a
     failure record {"at": i, "why": text, "diffs": [...], "refs": [...]} for the FIRST deviation."""
     refs = []
+    note = None  # first order-only deviation in a section whose key order the known finding C06-rewritten-key-order covers
+    unmerged = set()  # objects right after a caller-side edit / an unmerged load: reads unconstrained until the next merge
     for i, (op, res, vs) in enumerate(zip(ops, results, views)):
         n, o = op["op"], op.get("o", 0)
+        if n in ("EDITSRC", "LOADU"):
+            unmerged.add(o)
+        else:
+            unmerged.discard(o)
         try:
             if n in ("NEW", "NEWF"):
                 refs.append(new_ref(op))
+                refs[-1].strict_order = order
+                exp = ABSENT
+            elif n == "FRESH":
+                refs.append(Ref({"defaults": op["into"]}))
+                refs[-1].strict_order = order
                 exp = ABSENT
             elif n == "CLONE":
                 refs.append((clone_ref or Ref.clone)(refs[o], op.get("into")))
@@ -1004,10 +1045,39 @@ def judge(ops, results, views, clone_ref=None):
             if isinstance(v, str):
                 return {"at": i, "why": "object %d unreadable (%s) after %s" % (j, v, op_txt(op)), "diffs": [], "refs": refs,
                         "kind": "internal"}
+            if j in unmerged:
+                continue
             if v != r.tree or canon(v) != canon(r.tree):
                 d = diff(v, r.tree)
                 return {"at": i, "obj": j, "why": "after %s object %d reads %s, a nested dict that received the same operations reads %s"
                         % (op_txt(op), j, canon(v), canon(r.tree)), "diffs": d, "refs": refs, "kind": "view", "view": v}
+            if order:
+                od = order_diff(v, r.tree, r.order_dont_care())
+                if od is not None:
+                    return {"at": i, "obj": j, "why": "after %s object %d iterates section %s as %s, the nested dict as %s"
+                            % (op_txt(op), j, ".".join(od[0]) or "<root>", od[1], od[2]), "diffs": [], "refs": refs,
+                            "kind": "order", "view": v}
+                od = order_diff(v, r.tree) if note is None else None
+                if od is not None:
+                    # known finding C06-rewritten-key-order: recorded, the history goes on
+                    note = {"at": i, "obj": j, "why": "after %s object %d iterates section %s as %s, the nested dict as %s %s"
+                            % (op_txt(op), j, ".".join(od[0]) or "<root>", od[1], od[2], ORDER_TAG), "diffs": [],
+                            "refs": refs, "kind": "order-rewritten", "view": v}
+    return note
+
+
+ORDER_TAG = "[rewritten-key-order]"
+
+
+def order_diff(v, t, skip=(lambda p: False), pre=()):
+    """first section whose KEY ORDER differs between two trees with equal content (`skip(path)`: don't-care)"""
+    if not skip(pre) and list(v) != list(t):
+        return pre, list(v), list(t)
+    for k in v:
+        if isinstance(v[k], dict) and isinstance(t.get(k), dict):
+            r = order_diff(v[k], t[k], skip, pre + (k,))
+            if r is not None:
+                return r
     return None
 
 
